@@ -203,6 +203,11 @@ func cmdCheck(args []string) int {
 			rr := results[ri]
 			ri++
 			owner := prop
+			if o := idOwner(v.ID); o != "" && o != prop && v.Kind == "assert" {
+				// an assertion that belongs to another property (shared harness): that
+				// property's own check reports it
+				continue
+			}
 			if reproduced(v.Kind, v.ID, rr) {
 				if kf := matchKnown(known, owner, r.Name, v.ID); kf != nil {
 					knownHits++
@@ -316,6 +321,14 @@ func cmdCheck(args []string) int {
 		return 1
 	}
 	return 0
+}
+
+// idOwner: assertion ids are prefixed with the property they state ("C07.handlers...").
+func idOwner(id string) string {
+	if len(id) >= 4 && id[0] == 'C' && id[1] >= '0' && id[1] <= '9' && id[2] >= '0' && id[2] <= '9' && id[3] == '.' {
+		return id[:3]
+	}
+	return ""
 }
 
 func truncate(s string, n int) string {
